@@ -22,14 +22,15 @@ pub const CLTV_FAR_FAR_AWAY: u32 = 14 * 24 * 6;
 pub const MIN_FINAL_CLTV_EXPIRY_DELTA: u16 = HTLC_FAIL_BACK_BUFFER as u16 + 3;
 
 
-pub enum LocalHTLCFailureReason { FeeInsufficient, IncorrectCLTVExpiry, CLTVExpiryTooSoon, CLTVExpiryTooFar, OutgoingCLTVTooSoon }
+pub enum LocalHTLCFailureReason { FeeInsufficient, IncorrectCLTVExpiry, CLTVExpiryTooSoon, CLTVExpiryTooFar, OutgoingCLTVTooSoon, AmountBelowMinimum }
 pub struct UpdateAddHTLC { pub amount_msat: u64, pub cltv_expiry: u32 }
 #[derive(Clone, Copy)]
 pub struct ChannelConfig { pub forwarding_fee_proportional_millionths: u32, pub forwarding_fee_base_msat: u32, pub cltv_expiry_delta: u16 }
-pub struct ChannelContext { pub cfg: ChannelConfig, pub prev: Option<ChannelConfig> }
+pub struct ChannelContext { pub cfg: ChannelConfig, pub prev: Option<ChannelConfig>, pub counterparty_htlc_minimum_msat: u64 }
 impl ChannelContext {
     #[verifier::external_body] pub fn config(&self) -> (r: ChannelConfig) ensures r == self.cfg { unimplemented!() }
     #[verifier::external_body] pub fn prev_config(&self) -> (r: Option<ChannelConfig>) ensures r == self.prev { unimplemented!() }
+    #[verifier::external_body] pub fn get_counterparty_htlc_minimum_msat(&self) -> (r: u64) ensures r == self.counterparty_htlc_minimum_msat { unimplemented!() }
 }
 pub struct FundedChannel { pub context: ChannelContext }
 
@@ -98,6 +99,24 @@ pub fn htlc_satisfies_config(
 	}
 
 }
+
+// ---- the caller that admits a forward to a concrete outgoing channel (R15 slice: the last two statements of can_forward_htlc_to_outgoing_channel) ----
+pub struct NextPacketDetails { pub outgoing_amt_msat: u64, pub outgoing_cltv_value: u32 }
+fn can_forward_tail(chan: &mut FundedChannel, msg: &UpdateAddHTLC, next_packet: &NextPacketDetails) -> (r: Result<(), LocalHTLCFailureReason>)
+    ensures
+    r is Ok ==> next_packet.outgoing_amt_msat >= old(chan).context.counterparty_htlc_minimum_msat
+        && ((next_packet.outgoing_amt_msat as int + fwd_fee(next_packet.outgoing_amt_msat as int, &old(chan).context.cfg) <= msg.amount_msat
+                  && next_packet.outgoing_cltv_value as int + old(chan).context.cfg.cltv_expiry_delta as int <= msg.cltv_expiry)
+              || (old(chan).context.prev is Some
+                  && next_packet.outgoing_amt_msat as int + fwd_fee(next_packet.outgoing_amt_msat as int, &old(chan).context.prev->Some_0) <= msg.amount_msat
+                  && next_packet.outgoing_cltv_value as int + old(chan).context.prev->Some_0.cltv_expiry_delta as int <= msg.cltv_expiry)),
+ {
+        if next_packet.outgoing_amt_msat < chan.context.get_counterparty_htlc_minimum_msat() {
+			return Err(LocalHTLCFailureReason::AmountBelowMinimum);
+		}
+		chan.htlc_satisfies_config(msg, next_packet.outgoing_amt_msat, next_packet.outgoing_cltv_value)
+    }
+
 
 pub fn check_incoming_htlc_cltv(
 	cur_height: u32, outgoing_cltv_value: u32, cltv_expiry: u32, min_cltv_expiry_delta: u16,
